@@ -12,6 +12,7 @@ from .. import treecheck
 from ..treeprop import DROP_ASC, DROP_DESC, GC_DROP, HOLD_ASC, HOLD_DESC, TreeProp
 
 QUICK = [
+    ("S7", DROP_ASC, 1, "DELCORE"),
     ("S1", DROP_ASC, 2, "FULL"),
     ("S2", HOLD_DESC, 1, "FULL"),
     ("S2r", DROP_ASC, 1, "FULL"),
@@ -20,6 +21,7 @@ QUICK = [
     ("S1r", HOLD_DESC, 2, "EDIT"),
 ]
 THOROUGH = [
+    ("S7", DROP_ASC, 2, "DELCORE"),
     ("S1", DROP_ASC, 3, "FULL"),
     ("S2", HOLD_DESC, 2, "FULL"),
     ("S2", DROP_DESC, 2, "FULL"),
